@@ -5,6 +5,7 @@
 (* needed pair exists) parenthesis-free rendering.                          *)
 EXTENDS FeelTrees, TLC, Json
 CONSTANT Triples      \* "none" | "ladder" | "all"
+SL == INSTANCE StringLiteral
 
 \* a needed pair, certainly: operator under operator where the table demands it
 Hole(tp) == IF tp[1] \in BinOps THEN (IF tp[2] = "a" THEN ReqLeft(tp[1]) ELSE ReqRight(tp[1]))
@@ -32,6 +33,10 @@ Trip  == IF Triples = "none" THEN {}
 
 ASSUME \A c \in Pairs \cup Trip : PrintT(<<"CASE", ToJson(c)>>)
 ASSUME PrintT(<<"COUNT", Cardinality(Pairs), Cardinality(Trip)>>)
+\* string literals: every sequence of up to three (all trees: four) atoms of StringLiteral!Atoms, written alone and in
+\* front of / behind further tokens, literals and comments
+ASSUME \A s \in SL!AtomSeqs(IF Triples = "all" THEN 4 ELSE 3) :
+         PrintT(<<"STRLIT", ToJson([lit |-> SL!Literal(s), ctxs |-> SL!Contexts(SL!Denoted(s))])>>)
 \* the white space characters the harness lays the tokens out with (one layout uses every one of them in turn)
 ASSUME PrintT(<<"WS", ToJson(LayoutWhiteSpace)>>)
 VARIABLE v
